@@ -42,6 +42,8 @@ type vfBlock struct {
 	txs       []vfTx
 	ids       set.Set[ids.ID]
 	bytes     []byte
+	// onContainers, when set, is called at every GetContainers (C22: counts AcceptHistorical calls)
+	onContainers func()
 }
 
 func newVfBlock(n, parent uint64, ts int64, height uint64, txs []vfTx) *vfBlock {
@@ -57,7 +59,12 @@ func (b *vfBlock) GetParent() ids.ID      { return vfID(b.parent) }
 func (b *vfBlock) GetTimestamp() int64    { return b.ts }
 func (b *vfBlock) GetHeight() uint64      { return b.height }
 func (b *vfBlock) GetBytes() []byte       { return b.bytes }
-func (b *vfBlock) GetContainers() []vfTx  { return b.txs }
+func (b *vfBlock) GetContainers() []vfTx {
+	if b.onContainers != nil {
+		b.onContainers()
+	}
+	return b.txs
+}
 func (b *vfBlock) Contains(id ids.ID) bool { return b.ids.Contains(id) }
 func (b *vfBlock) String() string         { return fmt.Sprintf("vf%d", b.n) }
 
